@@ -1,8 +1,9 @@
-//! Prototype facade: everything from std, except sync::{RwLock,Mutex,Condvar}, thread::{spawn,sleep,...}
+//! Prototype facade: everything from std, except sync::{RwLock,Mutex,Condvar}, sync::atomic::*, thread::{spawn,sleep,...}
 //! which are routed through a controlled scheduling runtime when one is active on the calling thread.
 pub use ::std::*;
 
 pub mod rt;
+mod atomics;
 mod collections_impl { include!("collections.rs"); }
 pub mod collections {
   pub use crate::collections_impl::{HashMap, REVERSE};
@@ -12,6 +13,10 @@ pub mod collections {
 pub mod sync {
   pub use crate::rt::{Condvar, Mutex, MutexGuard, RwLock, RwLockReadGuard, RwLockWriteGuard, WaitTimeoutResult};
   pub use ::std::sync::*;
+  /// (shadows the glob import: operations on atomics are schedule points)
+  pub mod atomic {
+    pub use crate::atomics::*;
+  }
 }
 pub mod thread {
   pub use crate::rt::{sleep, spawn, yield_now, JoinHandle};
